@@ -2,10 +2,10 @@
 
 Plan equivalence as a whole is a semantic property and stays undecided.  Decided are three necessary conditions, each
 written from a defect that was demonstrated on the pinned tree and repaired:
- (R1) row / schema layout of delegating join operators: a join operator that delegates to another operator with its two
-      inputs swapped (RIGHT OUTER JOIN = LEFT OUTER JOIN of (right, left)) must not return the delegate's schema - that
-      schema lists the sides in the swapped order while the operator hands out rows in its own (left, right) order;
-      every FromResult it builds takes a schema that is not derived from the delegate's result;
+ (R1) row / schema layout of the join operators: every operator hands out rows laid out (left, right), so the schema of
+      every FromResult it builds must be rooted at its first input (combine(left.schema, ..), left.schema for semi / anti
+      joins).  A schema taken from a delegate that ran with the inputs swapped (RIGHT OUTER JOIN = LEFT OUTER JOIN of
+      (right, left)) lists the sides in the other order;
  (R2) NULL semantics of the NOT IN -> anti join rewrite: in try_convert_in_to_join the join condition built on the
       `negated` path is `x = s OR x IS NULL OR s IS NULL` (two IS NULL tests, one per operand, combined with OR): an anti
       join on `x = s` alone returns rows although the subquery yields a NULL, and rows whose x is NULL;
@@ -26,45 +26,30 @@ J = EX + 'select::join::'
 
 def run(ctx):
     prog = ctx.prog
-    # ------------------------------------------------------------------ R1 swapped delegation
-    ctx.rule('C05.R1', 'a join operator (FromResult, FromResult, ..) -> FromResult that calls another join operator with its own two inputs in swapped '
-             'order builds every result with a schema that is not the delegate\'s result schema')
+    # ------------------------------------------------------------------ R1 result layout of the join operators
+    ctx.rule('C05.R1', 'every join operator (FromResult, FromResult, ..) -> FromResult builds its result with a schema rooted at its FIRST input '
+             '(combine(left.schema, ..), CombinedSchema(left.schema.table_schemas, ..) or left.schema for semi / anti joins): rows are laid out '
+             '(left, right), so a schema taken from a delegate that was called with the inputs swapped, or rooted at the second input, misnames the columns')
     ops = [f for f in prog.fns.values() if f.unit == 'vibesql_executor' and not f.is_closure() and not shared.is_test(f) and f.nice.startswith(J)
            and f.argc >= 2 and 'FromResult' in f.locals[1] and 'FromResult' in f.locals[2]]
     ctx.floor('C05.R1 join operators', len(ops), 10)
-    nsw = 0
+    nres = 0
     for f in ops:
         a1, a2 = f.names.get(1, 'arg1'), f.names.get(2, 'arg2')
-        s = None
-        swapped = []
+        s = Sym(f)
         for i, t in f.calls():
             cn = callee_name(t) or ''
-            if not cn.startswith(J) or len(t['args']) < 2:
+            if not re.search(r'FromResult::(from_rows|from_rows_sorted|from_rows_where_filtered|from_iterator)$', cn) or not t['args']:
                 continue
-            s = s or Sym(f)
-            x, y = s.op(t['args'][0]), s.op(t['args'][1])
-            if x == a2 and y == a1:
-                swapped.append((i, cn))
-        if not swapped:
-            continue
-        nsw += 1
-        bad = []
-        for i, t in f.calls():
-            cn = callee_name(t) or ''
-            if not re.search(r'FromResult::(from_rows|from_iterator|new)$', cn) or not t['args']:
-                continue
+            nres += 1
             sch = s.op(t['args'][0])
-            for (_j, dcn) in swapped:
-                short = dcn.rsplit('::', 1)[1]
-                if re.search(r'\b' + re.escape(short) + r'\(' + re.escape(a2) + r', ' + re.escape(a1), sch):
-                    bad.append((t['l'], short))
-        ctx.instance(f'R1/{f.nice.rsplit("::", 1)[1]}', {'rule': 'C05.R1', 'fn': f.nice, 'delegates_swapped_to': [c.rsplit('::', 1)[1] for _i, c in swapped],
-                                                         'results_built_with_the_delegates_schema': len(bad)})
-        if bad:
-            ctx.finding(f'R1/{f.nice.rsplit("::", 1)[1]}', f'{f.nice} runs {bad[0][1]} with its inputs swapped and returns that join\'s schema with rows it reordered '
-                        'to (left, right): column names then resolve to the other table\'s values (SELECT a.x .. FROM a RIGHT JOIN b returns b\'s column)',
-                        f'{f.file}:{bad[0][0]}')
-    ctx.floor('C05.R1 operators that delegate with swapped inputs', nsw, 1)
+            rooted = re.match(r'^(combine\(|CombinedSchema\()?(clone\()?' + re.escape(a1) + r'\.schema\b', sch) is not None
+            ctx.instance(f'R1/{f.nice.rsplit("::", 1)[1]}@{shared._ordinal(f, i)}', {'rule': 'C05.R1', 'fn': f.nice, 'schema': sch[:90], 'rooted_at_first_input': rooted})
+            if not rooted:
+                ctx.finding(f'R1/{f.nice.rsplit("::", 1)[1]}', f'{f.nice} returns rows laid out ({a1}, {a2}) with the schema `{sch[:70]}`, which does not start with '
+                            f'{a1}.schema: column names then resolve to the other table\'s values (SELECT a.x .. FROM a RIGHT JOIN b returned b\'s column)',
+                            f'{f.file}:{t["l"]}')
+    ctx.floor('C05.R1 results built by join operators', nres, 10)
 
     # ------------------------------------------------------------------ R2 NOT IN -> anti join is NULL aware
     ctx.rule('C05.R2', 'try_convert_in_to_join: on the negated path the join condition is an OR of the equality with an IS NULL test of each operand')
